@@ -211,8 +211,9 @@ def scan_no_dangling(sim, snap, prop="C10"):
           raise vio(sim, "dangling-ref", "%s[%s].%s = %r but %s has no such row" % (tid, r, cid, v, target), prop)
       else:
         if isinstance(v, list):
-          if not v:
-            raise vio(sim, "empty-reflist-not-none", "%s[%s].%s holds an empty list, not None" % (tid, r, cid), prop)
+          # (An empty list as such is not excluded by the property -- a trigger formula returning an
+          # empty record set stores one. "None when nothing remains" is about what a removal leaves
+          # behind, and is checked in the step relation of C10.check.)
           for x in v:
             if isinstance(x, int) and x not in tgt:
               raise vio(sim, "dangling-reflist", "%s[%s].%s = %r but %s has no row %s" % (
